@@ -823,6 +823,31 @@ class Run:
             sides = rng.sample(sides, 4)
         for n in sides:
             self.side_damage(n)
+        # -- a COPY of the repository (mirror / restored from tape) while the original stays where the
+        #    .dat files say it is: -V and -R of the copy must look at the copy's own files
+        if not damages:
+            return
+        orig_repo = self.repo
+        copy = os.path.join(self.dir, 'repo-copy')
+        shutil.copytree(orig_repo, copy)
+        self.repo = copy
+        self.in_copy = True
+        self.count('copied-repository')
+        try:
+            for q in (False, True):
+                ok, kind = self.verify(q)
+                if not ok:
+                    self.violation('C18:verify-fails-intact:%s:copied-repository' % ('quick' if q else 'full'),
+                                   'verify%s fails on an intact copy of the repository: %s' % (
+                                       ' -Q' if q else '', kind))
+            self.recover(None, rng.choice([0, 1]), 'o', 0)
+            dd = damages if maxd is None or len(damages) <= 8 else rng.sample(damages, 8)
+            for n, kind, arg in dd:
+                self.damage(n, kind, arg, chain_names, newest_full)
+        finally:
+            self.repo = orig_repo
+            self.in_copy = False
+            shutil.rmtree(copy, ignore_errors=True)
 
     def side_damage(self, n):
         path = os.path.join(self.repo, n)
@@ -865,7 +890,8 @@ class Run:
         readable = kind == 'missing' or new_content is not None
         changed = kind == 'missing' or new_content != orig_content
         size_changed = kind == 'missing' or new_content is None or len(new_content) != len(orig_content)
-        self.count('damage:%s%s' % (kind, ':gz' if n.endswith('z') else ''))
+        self.count('damage:%s%s%s' % (kind, ':gz' if n.endswith('z') else '',
+                                      ':in-copy' if getattr(self, 'in_copy', False) else ''))
         if not changed:
             self.count('damage:content-unaffected(gzip header)')
         role = ('newest-full' if n == newest_full else 'current-incremental' if n in chain_names
@@ -893,9 +919,13 @@ class Run:
                     extra = ''
                     if role == 'newest-full' and kind == 'missing' and len(self.held) > len(chain_names):
                         extra = ':older-full-held'
+                    if getattr(self, 'in_copy', False):
+                        extra += ':copied-repository'
                     self.violation('C18:verify-passes:%s:%s%s' % (kind, role, extra),
-                                   'verify%s exits 0 although backup file %s (%s) is %s' % (
-                                       ' -Q' if q else '', n, role, kind))
+                                   'verify%s exits 0 although backup file %s (%s) is %s%s' % (
+                                       ' -Q' if q else '', n, role, kind,
+                                       ' in the verified copy of the repository (the original is intact)'
+                                       if getattr(self, 'in_copy', False) else ''))
             # recover after the damage: judged only when the damaged file is not used
             self.ndamage = getattr(self, 'ndamage', 0) + 1
             for w in ((0, 1) if self.case.get('final', {}).get('max_damages') is None else (self.ndamage % 2,)):
